@@ -70,6 +70,45 @@ theorem grain_selection_probability (perm : List ℕ) (f : List ℝ)
     refine ⟨hu, ?_⟩
     rw [hsel, List.getElem?_eq_getElem hi, hig]
 
+/-- **sample statistics target the volume-weighted statistics**: for a uniform variate on
+`[0,1)` the expected value of any per-grain quantity `g` of the selected grain is the
+volume-weighted sum `Σ fa[i] · g i` (the law of large numbers, which is not formalised, then
+gives convergence of the sample means). -/
+theorem expectation_eq_weighted (fa : List ℝ) (hne : fa ≠ []) (hpos : ∀ x ∈ fa, 0 ≤ x) (hsum : fa.sum = 1)
+    (g : ℕ → ℝ) :
+    ∫ u in Ico (0:ℝ) 1, g (searchsortedLeft (cumfrac fa) u)
+      = ∑ i ∈ Finset.range fa.length, (fa.getD i 0) * g i := by
+  have hcongr : ∀ u ∈ Ico (0:ℝ) 1, g (searchsortedLeft (cumfrac fa) u)
+      = ∑ i ∈ Finset.range fa.length, (selSet fa i).indicator (fun _ => g i) u := by
+    intro u hu
+    have hlt := ss_cumfrac_lt fa hne u hu.2.le
+    rw [Finset.sum_eq_single (searchsortedLeft (cumfrac fa) u)]
+    · rw [indicator_of_mem]
+      exact ⟨hu, rfl⟩
+    · intro j _ hj
+      rw [indicator_of_notMem]
+      rintro ⟨_, h⟩; exact hj h.symm
+    · intro h; exact absurd (Finset.mem_range.mpr hlt) h
+  rw [setIntegral_congr_fun measurableSet_Ico hcongr]
+  rw [integral_finsetSum]
+  · apply Finset.sum_congr rfl
+    intro i hi
+    have hi' : i < fa.length := Finset.mem_range.mp hi
+    have hm := measurableSet_selSet fa hpos hsum i hi'
+    rw [integral_indicator_const _ hm]
+    have hsub : selSet fa i ⊆ Ico (0:ℝ) 1 := fun u hu => hu.1
+    have hvol : (volume.restrict (Ico (0:ℝ) 1)) (selSet fa i) = ENNReal.ofReal fa[i] := by
+      rw [Measure.restrict_apply hm, inter_eq_left.mpr hsub]
+      exact volume_select fa hpos hsum i hi'
+    simp only [Measure.real, hvol, smul_eq_mul]
+    rw [ENNReal.toReal_ofReal (hpos _ (getElem_mem hi'))]
+    rw [← List.getElem_eq_getD (h := hi')]
+  · intro i hi
+    have hi' : i < fa.length := Finset.mem_range.mp hi
+    have hm := measurableSet_selSet fa hpos hsum i hi'
+    apply Integrable.indicator _ hm
+    exact integrable_const _
+
 /-- **membership**: every resampled pair is an `(orientation, volume)` pair of the input
 snapshot (no hypotheses at all). -/
 theorem pair_membership {α : Type} (perm : List ℕ) (A : List α) (f : List ℝ) (us : List ℝ) :
